@@ -199,21 +199,34 @@ func (ir *IncResult) Abnormal() string {
 	}
 }
 
-// HangKind classifies a hang entry: "spin" (a task never yields) or "blocked" (budget exhausted while waiting).
+// HangKind classifies a hang entry: "spin:<first siglens function on the stack>" (a task never yields) or
+// "blocked" (budget exhausted while waiting).
 func (ir *IncResult) HangKind() string {
-	if e := ir.Get("hang"); e != nil {
-		if strings.Contains(e.Err, "never reaches a yield point") {
-			// name the innermost siglens function of the spinning goroutine's outer frames that is stable:
-			for _, l := range strings.Split(e.Err, "\n") {
-				if strings.Contains(l, "siglens/pkg/") && strings.Contains(l, "(") && strings.Contains(l, "Fetch") {
-					return "spin"
-				}
-			}
-			return "spin"
-		}
+	e := ir.Get("hang")
+	if e == nil {
+		return "unknown"
+	}
+	if !strings.Contains(e.Err, "never reaches a yield point") {
 		return "blocked"
 	}
-	return "unknown"
+	for _, l := range strings.Split(e.Err, "\n") {
+		l = strings.TrimSpace(l)
+		if strings.HasPrefix(l, "github.com/siglens/siglens/pkg/") {
+			f := strings.TrimPrefix(l, "github.com/siglens/siglens/pkg/")
+			if k := strings.IndexByte(f, '('); k > 0 {
+				// keep "pkg/path.Func" or "pkg/path.(*T).Method"
+				if strings.HasPrefix(f[k:], "(*") {
+					if k2 := strings.IndexByte(f[k+1:], '('); k2 > 0 {
+						f = f[:k+1+k2]
+					}
+				} else {
+					f = f[:k]
+				}
+			}
+			return "spin:" + f
+		}
+	}
+	return "spin"
 }
 
 // PanicSite extracts the first siglens frame of a panic trace (used as violation signature).
